@@ -471,6 +471,8 @@ def _const(e):
         return True
     if isinstance(e, ast.Subscript) and isinstance(e.slice, ast.Constant) and _const(e.value):
         return True
+    if isinstance(e, ast.Dict) and e.keys and all(k is not None and isinstance(k, ast.Constant) for k in e.keys) and all(_const(v) for v in e.values):
+        return True
     return False
 
 
@@ -662,7 +664,22 @@ class _Unroll(ast.NodeTransformer):
                 if isinstance(x.ctx, (ast.Store, ast.Del)) and not any(x is y for y in ast.walk(tg)):
                     return None
         if _contains(st.body, (ast.Continue,)):
-            return None
+            # guard clauses at the top level of the body:  `if c: continue` followed by the rest  ==  `if not c: <rest>`
+            def deguard(stmts):
+                for i, x in enumerate(stmts):
+                    if isinstance(x, ast.If) and len(x.body) == 1 and isinstance(x.body[0], ast.Continue) and not x.orelse:
+                        rest = deguard(stmts[i + 1:])
+                        if rest is None:
+                            return None
+                        neg = ast.copy_location(ast.UnaryOp(op=ast.Not(), operand=x.test), x.test)
+                        return stmts[:i] + ([ast.copy_location(ast.If(test=neg, body=rest, orelse=[]), x)] if rest else [])
+                    if _contains([x], (ast.Continue,)):
+                        return None
+                return stmts
+            nb = deguard(list(st.body))
+            if nb is None or _contains(nb, (ast.Continue,)):
+                return None
+            st = ast.copy_location(ast.For(target=st.target, iter=st.iter, body=nb or [ast.copy_location(ast.Pass(), st)], orelse=st.orelse, type_comment=None), st)
         has_break = _contains(st.body, (ast.Break,))
         chain = False
         if has_break:
